@@ -740,6 +740,77 @@ theorem grace1_stops_after_unpin :
           { stableExists := true, stableSel := some "v1", canarySvc := some "v2", g := () }, Mem.empty,
           by decide, by decide, by decide⟩
 
+/-! ## a stable Service without `spec.selector` (finding `selectorlessStable`) -/
+
+/-- with a selector on the stable Service `doTrafficRoutingB` is `doTrafficRoutingX`: every theorem of this file
+    about `doTrafficRoutingX` is a theorem about `DoTrafficRouting` under the hypothesis "the stable Service
+    carries a selector" -/
+theorem doTRB_of_selector (ops : StratOps S) (P : Option (Provider S G)) (c : XCtx S) (a : Api) (n : XNet G) (m : Mem) :
+    doTrafficRoutingB ops P c a n m false = doTrafficRoutingX ops P c a n m := by
+  simp [doTrafficRoutingB, panicsBare]
+
+theorem doTRB_outside_guard (ops : StratOps S) (P : Option (Provider S G)) (c : XCtx S) (a : Api) (n : XNet G) (m : Mem)
+    (bare : Bool) (hg : panicsBare ops c a n bare = false) :
+    doTrafficRoutingB ops P c a n m bare = doTrafficRoutingX ops P c a n m := by
+  simp [doTrafficRoutingB, hg]
+
+/-- **C09 / C03 (`no_panicB`, partial: outside known finding `selectorlessStable`)** — with a provider whose
+    `EnsureRoutes` does not panic, `DoTrafficRouting` does not panic, whatever the state of the Services, the
+    context and the API faults — unless the stable Service has no selector and the call reaches
+    `createCanaryService` (`panicsBare`; see `no_panicB_full_FALSE`). -/
+theorem no_panicB_partial (ops : StratOps S) (P : Provider S G) (hP : ∀ a g s, (P.ensure a g s).panic = false)
+    (c : XCtx S) (a : Api) (n : XNet G) (m : Mem) (bare : Bool) (hg : panicsBare ops c a n bare = false) :
+    (doTrafficRoutingB ops (some P) c a n m bare).panic = false := by
+  rw [doTRB_outside_guard ops (some P) c a n m bare hg]
+  rcases doTRX_cases ops (some P) c a n m with ⟨_, _, hp, _⟩ | ⟨_, _, _, _, _, _, a2, _, _, _, he⟩
+  · exact hp
+  · rw [he]
+    unfold routeStepX
+    simp only [hP, Bool.false_eq_true, if_false]
+    split <;> rfl
+
+/-- The full-strength statement is FALSE on the unchanged code: a stable Service without selector, a first
+    weight step, and `DoTrafficRouting` panics (known finding `selectorlessStable`); nothing was written and
+    nothing changed, so the next reconcile panics in the same way (`selectorless_crash_loops`). -/
+theorem no_panicB_full_FALSE :
+    ∃ (c : XCtx Strat) (n : XNet Unit) (m : Mem),
+      (doTrafficRoutingB stratOps (some idle) c Api.ok n m true).panic = true := by
+  refine ⟨{ hasRef := true, grace := 3, strategy := { traffic := some "20%", mts := [], rhm := none },
+            disableGen := false, stableRev := "v1", canaryRev := "v2", lastUpdate := .none },
+          { stableExists := true, stableSel := none, canarySvc := none, g := () }, Mem.empty, by decide⟩
+
+/-- inside the guard the call leaves everything as it was — no write, Services, provider objects, expectations
+    and `LastUpdateTime` unchanged — and is not *done*: the same call on the same state panics again, on every
+    reconcile (the controller does not recover panics: a crash loop), and the step never completes.
+    (C03 / C07: `doTRX_converges` needs the hypothesis "the stable Service carries a selector".) -/
+theorem selectorless_crash_loops (ops : StratOps S) (P : Option (Provider S G)) (c : XCtx S) (a : Api) (n : XNet G)
+    (m : Mem) (hg : panicsBare ops c a n true = true) :
+    doTrafficRoutingB ops P c a n m true = .panicked n m a ∧
+    (doTrafficRoutingB ops P c a n m true).done = false ∧
+    (doTrafficRoutingB ops P c a n m true).net = n ∧ (doTrafficRoutingB ops P c a n m true).mem = m ∧
+    (doTrafficRoutingB ops P c a n m true).writes = [] ∧ (doTrafficRoutingB ops P c a n m true).touched = false := by
+  simp [doTrafficRoutingB, hg, XOut.panicked]
+
+/-- **C03 (`doneB_means_routed`)** — *done* is never reported by a panicking call: a `DoTrafficRouting` that
+    reports *done* over a possibly selector-less stable Service is a `doTrafficRoutingX` call that reports
+    *done*, so `doneX_means_routed` applies as it stands. -/
+theorem doneB_is_doneX (ops : StratOps S) (P : Option (Provider S G)) (c : XCtx S) (a : Api) (n : XNet G) (m : Mem)
+    (bare : Bool) (hd : (doTrafficRoutingB ops P c a n m bare).done = true) :
+    doTrafficRoutingB ops P c a n m bare = doTrafficRoutingX ops P c a n m := by
+  cases hg : panicsBare ops c a n bare
+  · exact doTRB_outside_guard ops P c a n m bare hg
+  · simp [doTrafficRoutingB, hg, XOut.panicked] at hd
+
+/-- the other Manager calls do not depend on the selector map: `PatchStableService` / `RestoreStableService`
+    send a strategic-merge patch built from a string (`{"spec":{"selector":{key:rev}}}`), which the API server
+    applies to a nil selector as well — checked against the real code by the suite (state `stableBare`). -/
+theorem selectorless_only_create (ops : StratOps S) (c : XCtx S) (a : Api) (n : XNet G) (bare : Bool)
+    (h : panicsBare ops c a n bare = true) :
+    bare = true ∧ n.canarySvc = none ∧ n.stableSel = none ∧ c.noGen = false := by
+  simp only [panicsBare, Bool.and_eq_true, Bool.not_eq_true', Option.isNone_iff_eq_none] at h
+  obtain ⟨⟨⟨⟨⟨⟨⟨⟨⟨⟨⟨hb, _⟩, _⟩, _⟩, _⟩, _⟩, hn⟩, _⟩, _⟩, _⟩, hc⟩, hs⟩ := h
+  exact ⟨hb, hc, hs, hn⟩
+
 /-! ## composite: all or nothing -/
 
 section composite
